@@ -204,7 +204,7 @@ func (ex *Exec) lockDiscipline() {
 		if !ok {
 			return
 		}
-		key := gi.muHeap + "@" + ref.s
+		key := gi.muHeap + "@" + ex.canonTerm(ref.s)
 		kind := "held:"
 		if write {
 			kind = "wheld:"
